@@ -53,7 +53,7 @@ NulFix(s) == [i \in 1..Len(s) |-> IF s[i] = 0 THEN REPLACEMENT ELSE s[i]]
 
 \* Laws of the definition itself (checked by TLC in MC_C10_*):
 \* the serialization contains no raw NUL / C0 control / DEL ...
-NoRawControl(s) == \A i \in 1..Len(Escape(s)) : Escape(s)[i] # 0 /\ ~IsControl(Escape(s)[i])
+NoRawControl(s) == LET e == Escape(s) IN \A i \in 1..Len(e) : e[i] # 0 /\ ~IsControl(e[i])
 \* ... is never shorter than the identifier, and is empty only for the empty identifier
-LengthLaw(s) == Len(Escape(s)) >= Len(s) /\ (Len(Escape(s)) = 0 <=> Len(s) = 0)
+LengthLaw(s) == LET e == Escape(s) IN Len(e) >= Len(s) /\ (Len(e) = 0 <=> Len(s) = 0)
 =============================================================================
